@@ -793,7 +793,7 @@ namespace BitSerializer::MsgPack::Detail
 				binarySize = sz32;
 				return true;
 			}
-			HandleMismatchedTypesPolicy(mInputData, mPos, ReadValueType(), mSerializationOptions.mismatchedTypesPolicy);
+			// Any other type stays unread (binary containers can be also loaded from a regular array)
 			return false;
 		}
 		throw ParsingException("No more values to read", 0, mPos);
@@ -1397,6 +1397,8 @@ namespace BitSerializer::MsgPack::Detail
 				binarySize = sz32;
 				return true;
 			}
+			// Any other type stays unread (binary containers can be also loaded from a regular array)
+			return false;
 		}
 		throw ParsingException("No more values to read", 0, mBinaryStreamReader.GetPosition());
 	}
